@@ -143,5 +143,5 @@ Example c20_example :
   nth 6 (snd fin) (RErr EOther) = ROk (Some 5%N) /\ nth 7 (snd fin) (RErr EOther) = ROk (Some 6%N) /\
   skipn 3 (w_block false (view_of s) (addr_of 5)) = skipn 3 (w_block false (view_of s) (addr_of 1)) /\
   length (w_block false (view_of s) (addr_of 6)) = length (w_block false (view_of s) (addr_of 1)) /\
-  length (w_block false (view_of s) (addr_of 1)) = 67.
+  length (w_block false (view_of s) (addr_of 1)) = 71.
 Proof. vm_compute. repeat split. Qed.
